@@ -149,6 +149,12 @@ impl IsoDateTime {
         utc_epoch_nanos(self.date, &self.time)
     }
 
+    /// `GetUTCEpochNanoseconds` without the instant range check: a wall-clock reading can lie up
+    /// to a day outside of the instant range while the instant it denotes is still valid.
+    pub(crate) fn as_unchecked_nanoseconds(&self) -> i128 {
+        to_unchecked_epoch_nanoseconds(self.date, &self.time)
+    }
+
     /// Specification equivalent to 5.5.9 `AddDateTime`.
     pub(crate) fn add_date_duration(
         &self,
